@@ -1,6 +1,8 @@
 #!/bin/bash
 # lib/integrate.sh <branch> [Cxx ...] — merge a builder's branches into /verif and /repo, rebuild, run its checks.
 set -u
+# /repo is shared by integration (cherry-picks) and seeded runs (apply/undo): serialise them
+exec 9>/tmp/repo.lock; flock 9
 B=$1; shift
 cd /verif
 echo "== repo commits on $B"
